@@ -56,7 +56,15 @@ MANIFEST = {
             "queue hypotheses are kept); `obsw` lines run a REAL server context with "
             "observable resources (harness/observe.c) and compare the value coap_io_prepare_epoll() returns at every io / adv event "
             "with that model exactly; observation (oracle on the implementation alone): that value is never 0 and never beyond the "
-            "earliest deadline of the send queue as the call leaves it.",
+            "earliest deadline of the send queue as the call leaves it.  Round R06c, ICMP events (Model/MsgLayerI.lean: event "
+            "icmp:<session> = coap_session_disconnected_lkd(COAP_NACK_ICMP_ISSUE) + the I/O step ending coap_io_do_epoll): "
+            "icmp_report_changes_nothing_but_the_report (every state: clock, send queue, con_active, delay queues unchanged; ONE "
+            "report - first node of the session in the send queue, else lg_crcv, else sent = NULL), icmp_run_is_base_run (EVERY "
+            "event list with ICMP events anywhere: ICMP reports and logged waits aside it IS the base model's run with each ICMP "
+            "event replaced by an I/O step), hence retransmit_schedule_icmp, giveup_after_all_retransmissions_icmp, "
+            "single_outcome_icmp (only TOO_MANY_RETRIES / RST count as outcomes), at_most_max_retransmissions_icmp, "
+            "refines_timer_icmp, and C08's con_active_eq_inflight_icmp / held_fifo_exactly_once_icmp; tied on i:S events (the "
+            "harness makes recv() fail with ECONNREFUSED) incl. together with failing socket writes.",
     "note": "Trusted: Lean kernel (+ propext, Classical.choice, Quot.sound), harness/sim_core.h + msg.c (--wrap clock/network), the scenario "
             "interpreter Driver/Msg.lean, generators/oracles, the hand transcription M (checked on the cases run only).  M-level theorems: "
             "sessions stay established (no hold/disconnect: session failure is C08's), no-wrap range D7, T > 0.  "
@@ -70,7 +78,9 @@ MANIFEST = {
             "because they exclude a failing write of a FIRST transmission (coap_send then refuses the message; the drain loop of "
             "coap_session_connected stops - open finding drain_break_strands_delayed, w_drain_break_strands_witness); those runs are "
             "covered by the trace comparison with the write-failure model and by the oracle only; not combined with keepalive / "
-            "explicit tokens / ICMP events.  Real-time behaviour of epoll_wait is not modelled.",
+            "explicit tokens (ICMP events are: Coap.MsgI.stepWI, trace comparison and oracle, no whole-run theorem).  The lg_crcv "
+            "branch of the ICMP report is transcribed with the block-layer record as a parameter; the harness deletes that record "
+            "after every delivery, so the differential runs exercise `none` only.  Real-time behaviour of epoll_wait is not modelled.",
     "design_ref": "DESIGN.md §4 C06, design/C06.md",
 }
 LEAN_MODULES = ["CoapVerif.Props.C06"]
@@ -96,7 +106,11 @@ REQUIRED_THEOREMS = ["queue_abs_invariant", "insert_commutes", "pop_commutes", "
                      "ack_request_code_is_bad_ack", "m_solo_ack_request_code", "notify_wait_le_every_deadline",
                      "obs_wait_le_every_deadline_partial", "obs_io_wait_le_every_deadline_partial",
                      "obs_wait_le_every_deadline", "obs_io_wait_le_every_deadline", "obs_io_wait_le_every_deadline_sorted",
-                     "obs_io_nothing_due", "obs_queue_sorted_nothing_due", "obs_queue_sorted_step"]
+                     "obs_io_nothing_due", "obs_queue_sorted_nothing_due", "obs_queue_sorted_step",
+                     "icmp_report_changes_nothing_but_the_report", "icmp_report_is_not_an_outcome", "icmp_report_is_x_icmp",
+                     "icmp_run_is_base_run", "retransmit_schedule_icmp", "giveup_after_all_retransmissions_icmp",
+                     "single_outcome_icmp", "at_most_max_retransmissions_icmp", "refines_timer_icmp",
+                     "con_active_eq_inflight_icmp", "held_fifo_exactly_once_icmp"]
 RULE = ("scenario lines for harness/msg.c (one real client context, 1-3 UDP sessions sharing the send queue, virtual clock, "
         "scripted peer): every drop subset of the first 10 datagrams of an exchange (5 transmissions x 5 ACKs) for several "
         "parameter sets and ACK delays placed just before / at / after each timer deadline; random multi-message, "
@@ -105,7 +119,9 @@ RULE = ("scenario lines for harness/msg.c (one real client context, 1-3 UDP sess
         "- every lost / write-fails pattern over the attempts of a message x every outcome with a second message waiting for its "
         "NSTART slot, and at random positions of random scenarios; ACKs that carry the message id but a request code 0.01-0.31 "
         "(fate q / event q:) - every drop subset of the first 10 datagrams once more with such ACKs, and mixed into random "
-        "scenarios; `obsw` lines for harness/observe.c: a real SERVER context with 1-3 observable resources (NOTIFY_CON / default "
+        "scenarios; ICMP errors read from a session's socket (event i:) - just before / at / after every deadline of a message, "
+        "once or twice, with a second message waiting for its NSTART slot, between punctual I/O steps, and at random points of "
+        "random scenarios (a third of them with failing socket writes); `obsw` lines for harness/observe.c: a real SERVER context with 1-3 observable resources (NOTIFY_CON / default "
         "/ NON_ALWAYS), 1-4 real clients, changes followed by the I/O step that sends the notifications from inside "
         "coap_io_prepare_io with an empty or later-armed send queue, ACK / RST / silence, time steps around 2000*2^k and the "
         "idle-session timeout, plus C11's own histories; raw queue-operation sequences on real coap_queue_t "
@@ -115,7 +131,7 @@ TRUSTED_BASE = ["Lean 4.33 kernel; axioms allowed: propext, Classical.choice, Qu
                 "harness/sim_core.h + harness/msg.c (virtual clock and scripted network by --wrap of coap_ticks / coap_socket_send / "
                 "coap_socket_recv), the scenario interpreter in Driver/Msg.lean, generators and oracles in vlib/msglib.py; for `obsw` "
                 "lines harness/observe.c, Driver/Observe.lean + Driver/ObserveWait.lean and C11's model Model/Observe.lean",
-                "M (Model/SendQueue.lean, Model/MsgLayer.lean, Model/MsgLayerW.lean) is a hand transcription of the anchored C functions; checked "
+                "M (Model/SendQueue.lean, Model/MsgLayer.lean, Model/MsgLayerW.lean, Model/MsgLayerI.lean) is a hand transcription of the anchored C functions; checked "
                 "against the compiled code by exact trace equality (transmissions with virtual timestamps, NACKs, con_active, "
                 "delay-queue lengths, the whole send queue with absolute deadlines after every event) on the cases run only"]
 ASSUMPTIONS = ["D7: ping_timeout = 0; transmission parameters where Q()'s uint16_t cast does not wrap and T << MAX_RETRANSMIT fits "
@@ -221,6 +237,76 @@ def exhaustive_q(ctx, psets):
 
 
 REQ_CODES = [1, 1, 2, 3, 4, 5, 6, 7, 8, 16, 30, 31]
+
+
+def exhaustive_icmp(ctx, psets):
+    """ICMP errors swept over the life of a message: ONE session, message A (and, every other line, message B behind it in the
+    delay queue, NSTART 1); an ICMP error is read just before / at / just after every deadline of A (the I/O step of the event
+    itself then retransmits A or gives it up and lets B in), once or twice, A ending by ACK / RST / TOO_MANY_RETRIES; and right
+    after coap_send() / after every retransmission with the I/O loop punctual (g:K i:0 …), so that the doubling rule is judged."""
+    out = []
+    for pi, p in enumerate(psets):
+        mx = p[4]
+        for k in range(mx + 1):
+            for off in (-1, 0, 1):
+                for ei, end in enumerate(([], ["a50"], ["r50"], ["a%d" % 10 ** 6])):
+                    for two in (0, 1):
+                        r = (k * 31 + (off + 1) * 7 + ei * 13 + pi * 101 + two * 5) % 256
+                        T = L.py_calc_timeout(p[0], p[1], p[2], p[3], r)
+                        D = max(0, T * (2 ** (k + 1) - 1) + off)
+                        fates = ["d"] * (k + 1) + end
+                        evs = ["s:0:c:%d:%d" % (6000 + k, r)] + (["s:0:c:%d:%d" % (6100 + k, (r * 3) % 256)] if (k + ei + two) % 2 else [])
+                        evs += ["t:%d" % D, "i:0"] + (["i:0"] if two else []) + ["g:400"]
+                        out.append("msg %s %s %s" % (L.sess_word(p, 1), ",".join(fates) if fates else "-", " ".join(evs)))
+        for k in range(mx + 2):
+            r = (k * 17 + pi * 29) % 256
+            out.append("msg %s - s:0:c:%d:%d s:0:c:%d:%d i:0 g:%d i:0 g:1 i:0 g:400 i:0" % (
+                L.sess_word(p, 1), 6200 + k, r, 6300 + k, 255 - r, k))
+    return out
+
+
+def gen_ka(rng):
+    """keepalive (k:SECS, extended model): the library's own empty Confirmable ("ping") takes the NSTART slot of a silent session;
+    the peer answers it with a RST (the pong), an ACK, late, or not at all; THEN the application submits Confirmables, which must
+    be transmitted (at once or when the ping is concluded) and end in one outcome.  Half of the lines are the c08 generator's."""
+    if rng.random() < 0.5:
+        return L.gen_scenario_x(rng, "ka")
+    p = rng.choice(L.PARAM_SETS)
+    K = rng.randint(1, max(1, p[0]))
+    nstart = rng.choice([1, 1, 1, 2])
+    pong = rng.choice(["r0", "r1", "r50", "r400", "a50", "a1", "d", "R50+60", "r%d" % (K * 1000)])
+    fates = [pong] + [rng.choice(["a50", "a1", "d", "r50", "a400"]) for _ in range(rng.randint(0, 6))]
+    evs = ["k:%d" % K, "t:%d" % rng.choice([K * 1000, K * 1000, K * 1000 + 1, 2 * K * 1000])]
+    evs += rng.choice([[], ["t:%d" % rng.choice([0, 1, 50, 51, 400, 1000])], ["n"], ["g:2"]])
+    mid = rng.choice([100, 30000, 65000])
+    for j in range(rng.randint(1, 3)):
+        evs.append("s:0:c:%d:%d" % (mid + j, rng.randrange(256)))
+        if rng.random() < 0.4:
+            evs.append(rng.choice(["n", "t:%d" % rng.choice([1, 50, 400, K * 1000]), "g:2"]))
+    if rng.random() < 0.3:
+        evs.append("k:0")
+    evs.append("g:%d" % rng.choice([10, 25, 40]))
+    return "msg %s %s %s" % (L.sess_word(p, nstart), ",".join(fates), " ".join(evs))
+
+
+def gen_icmp(rng, wf=False):
+    """a random scenario of the c06 flavour (optionally with failing socket writes, fate `x`) in which ICMP errors are read from
+    the sockets: right after a coap_send(), after a time step, between two punctual I/O steps (g:K), at the very end"""
+    w = (gen_wf(rng) if wf else L.gen_scenario(rng, "c06")).split()
+    evs = w[3:]
+    ns = w[1].count(",") + 1
+    for _ in range(rng.choice([1, 1, 2, 3, 4])):
+        pos = rng.randint(1, len(evs))
+        ins = ["i:%d" % rng.randrange(ns)]
+        c = rng.random()
+        if c < 0.3:
+            ins = ["g:%d" % rng.choice([1, 1, 2, 3, 5])] + ins
+        elif c < 0.5 and rng.random() < 0.5:
+            ins = ["t:%d" % rng.choice(L.DELAYS)] + ins
+        evs[pos:pos] = ins
+    if not evs[-1].startswith("g:"):
+        evs.append("g:3000")
+    return " ".join(w[:3] + evs)
 
 
 def gen_q(rng):
@@ -412,6 +498,9 @@ def generate(ctx, escalate=False):
     out += [gen_wf(rng) for _ in range(n // 2)]
     out += exhaustive_q(ctx, L.PARAM_SETS[:3] if th else [L.PARAM_SETS[0]])
     out += [gen_q(rng) for _ in range(n // 3)]
+    out += exhaustive_icmp(ctx, L.PARAM_SETS[:4] if th else [L.PARAM_SETS[0], L.PARAM_SETS[1]])
+    out += [gen_icmp(rng, wf=(k % 3 == 2)) for k in range(n // 3)]
+    out += [gen_ka(rng) for _ in range(n // 4)]
     out += [gen_obsw(rng) for _ in range(n // 4)] + [gen_obsw_borrowed(rng) for _ in range(n // 12)]
     out += [gen_sq(rng) for _ in range(n)]
     out += [gen_tmo(rng) for _ in range(n)]
@@ -520,6 +609,8 @@ def search(ctx, tie_breaks, proof):
     out += [L.gen_scenario(rng, "c06") for _ in range(3000)]
     out += [gen_wf(rng) for _ in range(1500)]
     out += [gen_q(rng) for _ in range(1500)]
+    out += [gen_icmp(rng, wf=(k % 3 == 2)) for k in range(1500)]
+    out += [gen_ka(rng) for _ in range(1000)]
     out += [gen_obsw(rng) for _ in range(1000)]
     return out
 
